@@ -183,6 +183,12 @@ class Interp:
                 return SV('tuple', tuple(self.fresh(t, base) for t in ty[1]))
             if k == 'mobj':
                 return self.fresh_mobj(ty[1], base, ty[2] if len(ty) > 2 else None)
+            if k == 'mdict':
+                # a LOCAL dict with symbolic keys (e.g. open segment groups by APID): arrays over the key sort
+                ks, vs = TY.smt_sort(ty[1]), TY.smt_sort(ty[2])
+                return SV('mdict', {'has': z3.Array(p.fresh_name(base + '_has'), ks, z3.BoolSort()),
+                                    'val': z3.Array(p.fresh_name(base + '_val'), ks, vs)},
+                          extra={'key': ty[1], 'elem': ty[2]})
             if k == 'smap':
                 # a dict from names to definition objects of the given class(es), e.g. XtcePacketDefinition.containers
                 has = z3.Array(p.fresh_name(base + '_has'), z3.StringSort(), z3.BoolSort())
@@ -873,17 +879,27 @@ class Interp:
         pos = [a.arg for a in params.posonlyargs + params.args]
         defaults = params.defaults
         kwonly = [a.arg for a in params.kwonlyargs]
-        if params.vararg or params.kwarg:
-            self.oos(node, "*args/**kwargs in callee")
+        extra_pos, extra_kw = [], []
         if len(args) > len(pos):
-            self.raise_('TypeError', node)
+            if not params.vararg:
+                self.raise_('TypeError', node)
+            extra_pos = list(args[len(pos):])
         bound = {}
         for name, v in zip(pos, args):
             bound[name] = v
         for kname, v in kwargs.items():
-            if kname in bound or (kname not in pos and kname not in kwonly):
+            if kname in bound:
                 self.raise_('TypeError', node)
+            if kname not in pos and kname not in kwonly:
+                if not params.kwarg:
+                    self.raise_('TypeError', node)
+                extra_kw.append((mk_str(kname), v))
+                continue
             bound[kname] = v
+        if params.vararg:
+            bound[params.vararg.arg] = SV('tuple', tuple(extra_pos))
+        if params.kwarg:
+            bound[params.kwarg.arg] = SV('cdict', extra_kw)
         ndef = len(defaults)
         for i, name in enumerate(pos):
             if name not in bound:
